@@ -24,6 +24,15 @@ type c16Case struct {
 	Chunks []string `json:"chunks,omitempty"`
 	Addr   string   `json:"addr,omitempty"`
 	Open   bool     `json:"open,omitempty"` // the client keeps the connection open until it has the answer (as curl does)
+	// the list behind the status dump.  Dump (kind "http"): the getHandler is the real Terminal.dumpStatus over a
+	// Terminal holding Items (Sel = indices selected, in that order; Query; Cy = cursor position) instead of the
+	// oracle State.  Kind "live": a real fzf --listen process is given the list and Reqs are sent over TCP.
+	Dump  bool       `json:"dump,omitempty"`
+	Items []string   `json:"items,omitempty"`
+	Sel   []int      `json:"sel,omitempty"`
+	Query string     `json:"query,omitempty"`
+	Cy    int        `json:"cy,omitempty"`
+	Reqs  [][]string `json:"reqs,omitempty"` // kind "live": successive connections, each a list of writes
 }
 
 func lat(b []byte) string {
@@ -83,6 +92,13 @@ func sameActions(t1 []int, a1 []string, t2 []int, a2 []string) bool {
 
 // c16Impl feeds the writes over net.Pipe to handleHttpRequest (through the hook) and closes.
 func c16Impl(cs c16Case, keepOpen bool, patience time.Duration) (res fzf.VerifHTTPResult, panicked string, hung bool, waited bool) {
+	r, _, p, h, w := c16ImplState(cs, keepOpen, patience)
+	return r, p, h, w
+}
+
+// c16ImplState also returns the state string the getHandler answered with: the oracle of the case, or (Dump) what the
+// real Terminal.dumpStatus returned for the list of the case.
+func c16ImplState(cs c16Case, keepOpen bool, patience time.Duration) (res fzf.VerifHTTPResult, state string, panicked string, hung bool, waited bool) {
 	client, server := net.Pipe()
 	chunks := make([][]byte, len(cs.Chunks))
 	for i, c := range cs.Chunks {
@@ -103,7 +119,12 @@ func c16Impl(cs c16Case, keepOpen bool, patience time.Duration) (res fzf.VerifHT
 	}()
 	type out struct {
 		r fzf.VerifHTTPResult
+		s string
 		p string
+	}
+	items := make([]string, len(cs.Items))
+	for i, it := range cs.Items {
+		items[i] = string(unlat(it))
 	}
 	done := make(chan out, 1)
 	go func() {
@@ -114,14 +135,20 @@ func c16Impl(cs c16Case, keepOpen bool, patience time.Duration) (res fzf.VerifHT
 			}
 			done <- o
 		}()
-		o.r = fzf.VerifHandleHTTP(server, string(unlat(cs.Key)), string(unlat(cs.State)), cs.Ready)
+		if cs.Dump {
+			d := fzf.VerifHandleHTTPDump(server, string(unlat(cs.Key)), items, cs.Sel, string(unlat(cs.Query)), cs.Cy, cs.Ready)
+			o.r, o.s = d.VerifHTTPResult, d.State
+		} else {
+			o.s = string(unlat(cs.State))
+			o.r = fzf.VerifHandleHTTP(server, string(unlat(cs.Key)), o.s, cs.Ready)
+		}
 	}()
 	if keepOpen {
 		select {
 		case o := <-done:
 			server.Close()
 			client.Close()
-			return o.r, o.p, false, false
+			return o.r, o.s, o.p, false, false
 		case <-time.After(patience): // a complete request must be answered without waiting for the client to close
 			waited = true
 			client.Close()
@@ -131,11 +158,11 @@ func c16Impl(cs c16Case, keepOpen bool, patience time.Duration) (res fzf.VerifHT
 	case o := <-done:
 		server.Close()
 		client.Close()
-		return o.r, o.p, false, waited
+		return o.r, o.s, o.p, false, waited
 	case <-time.After(8 * time.Second): // the stream is closed after the last write: nothing should wait for the 10 s deadline
 		server.Close()
 		client.Close()
-		return res, "", true, waited
+		return res, "", "", true, waited
 	}
 }
 
@@ -153,6 +180,20 @@ func c16Check(c *Ctx, cs c16Case) {
 	if cs.Kind == "listen" {
 		c16CheckListen(c, cs)
 		return
+	}
+	if cs.Kind == "live" {
+		c16CheckLive(c, cs)
+		return
+	}
+	if cs.Dump { // hand-written replays: only indices of the list, each once
+		sel, seen := []int{}, map[int]bool{}
+		for _, i := range cs.Sel {
+			if i >= 0 && i < len(cs.Items) && !seen[i] {
+				sel = append(sel, i)
+				seen[i] = true
+			}
+		}
+		cs.Sel = sel
 	}
 	rep := c.Rep
 	key := string(unlat(cs.Key))
@@ -176,14 +217,14 @@ func c16Check(c *Ctx, cs c16Case) {
 		completeGet = gm.IsList && len(gm.L) == 1
 	}
 	keepOpen := cs.Open && whole && (specHas || completeGet) && (rep.NDisagree() < 3 || c.Replay != "") // enough evidence: stop paying for waits
-	res, pan, hung, waited := c16Impl(cs, keepOpen, 2*time.Second)
+	res, state, pan, hung, waited := c16ImplState(cs, keepOpen, 2*time.Second)
 	stallShape := false // the known finding: everything after the blank line ends with CRLF
 	if i := bytes.Index(stream, []byte("\r\n\r\n")); specHas && i >= 0 && bytes.HasSuffix(stream[i+4:], []byte("\r\n")) {
 		stallShape = true
 	}
 	if waited && !stallShape {
 		// liveness observations are re-tried with more patience (still below the 10 s deadline) before they count
-		res, pan, hung, waited = c16Impl(cs, keepOpen, 7*time.Second)
+		res, state, pan, hung, waited = c16ImplState(cs, keepOpen, 7*time.Second)
 	}
 	rep.mu.Lock()
 	rep.ImplTraces++
@@ -212,7 +253,10 @@ func c16Check(c *Ctx, cs c16Case) {
 		}
 		verdict = mparsed.verdict()
 	}
-	mv := c.Model.Call(1601, L(Bytes(key), Bytes(string(unlat(cs.State))), verdict, B(cs.Ready), L(chunksV...)))
+	if !res.GetCalled {
+		state = string(unlat(cs.State)) // not looked at by the handler
+	}
+	mv := c.Model.Call(1601, L(Bytes(key), Bytes(state), verdict, B(cs.Ready), L(chunksV...)))
 	// projected observables of the implementation in the model's shape
 	implActs := L()
 	if res.Delivered {
@@ -290,6 +334,38 @@ func c16Check(c *Ctx, cs c16Case) {
 	if res.GetCalled && !bytes.HasPrefix(stream, []byte("GET /")) {
 		viol("get_requires_key", implSummary, "state is only returned to a GET request")
 	}
+	// get_request_params / get_params_safe: the getHandler is given what the request line at the start of the stream asks
+	// for, and never a negative number (the condition under which the status dump cannot index outside its lists)
+	var specGet Val
+	if res.GetCalled {
+		specGet = c.Model.Call(1609, Bytes(string(stream)))
+		if res.Limit < 0 || res.Offset < 0 {
+			viol("get_params_safe", map[string]interface{}{"limit": res.Limit, "offset": res.Offset, "response": lat([]byte(res.Response))},
+				"limit and offset in 0 .. 2^63-1: Terminal.dumpStatus indexes its lists with offset+i")
+		} else if !specGet.Equal(implGet) {
+			viol("get_request_params", map[string]interface{}{"limit": res.Limit, "offset": res.Offset},
+				"the limit/offset of the request line (high/low halves): "+specGet.String())
+		}
+	}
+	// answer_verbatim: the body of the answer is the message, byte for byte - the state for a GET, the parser's own error
+	// text for a refused action list
+	if res.GetCalled || (whole && specHas && sparsed.Failed) {
+		want, wantCode := state+"\n", 200
+		switch {
+		case !res.GetCalled:
+			want, wantCode = sparsed.Err+"\n", 400
+		case state == "":
+			want, wantCode = "{\"error\":\"timeout\"}\n", 503
+		}
+		bv := c.Model.Call(1611, Bytes(res.Response))
+		if code != wantCode || !bv.IsList || len(bv.L) != 1 || bv.L[0].Str() != want {
+			viol("answer_verbatim", implSummary, map[string]interface{}{"status": wantCode, "body": lat([]byte(want))})
+		}
+	}
+	// get_dump_window: what the real status dump shows is the window [offset, offset+limit) of the list and of the selection
+	if cs.Dump && res.GetCalled && len(specGet.L) == 4 {
+		c16CheckDump(c, cs, state, specGet, viol)
+	}
 	// completeness on unsegmented small requests: an acceptable POST written at once is executed
 	if whole && specAccept && cs.Ready && !(res.Delivered && code == 200) {
 		viol("wellformed_accepted", implSummary, "200 and the actions of "+strconv.Quote(specBody))
@@ -323,6 +399,15 @@ func c16Check(c *Ctx, cs c16Case) {
 	}
 	if res.GetCalled {
 		rep.Count("get_answered")
+		if cs.Dump {
+			rep.Count("get_answered_by_real_dump")
+		}
+		if res.Limit > 1<<32 || res.Offset > 1<<32 {
+			rep.Count("get_param>2^32")
+		}
+	}
+	if bytes.Contains(stream, []byte("%")) || bytes.Contains([]byte(state), []byte("%")) {
+		rep.Count("percent_sign_in_request_or_state")
 	}
 	if key != "" {
 		rep.Count("key=set")
@@ -440,7 +525,10 @@ func c16Name(r *RNG, base string) string {
 	return base
 }
 
-func c16Request(r *RNG, key string) []byte {
+func c16Request(r *RNG, key string) []byte { return c16RequestWith(r, key, nil) }
+
+// c16RequestWith: bodyOf (when not nil) supplies the POST bodies
+func c16RequestWith(r *RNG, key string, bodyOf func(*RNG) string) []byte {
 	get := r.Chance(1, 4)
 	line := "POST / HTTP/1.1"
 	if get {
@@ -448,6 +536,9 @@ func c16Request(r *RNG, key string) []byte {
 			"GET /?limit=0 HTTP/1.1", "GET /?limit=99999999999999999999&offset=1 HTTP/1.1", "GET /?limit=3=4&x=1&&limit HTTP/1.1",
 			"GET /?limit=9223372036854775807&offset=9223372036854775808 HTTP/1.1", "GET /? HTTP/1.1", "GET /?LIMIT=1 HTTP/1.1",
 			"GET /x HTTP/1.1", "GET  / HTTP/1.1", "GET /?a=b HTTP", "GET / HTTP", "GET /"})
+		if r.Chance(1, 2) { // generated parameters: numbers at the boundaries of the integer types, repeated / unknown / empty names
+			line = "GET /?" + c16Query(r) + Pick(r, []string{" HTTP/1.1", " HTTP/1.1", " HTTP/1.1", " HTTP/1.0", " HTTP", ""})
+		}
 	} else if r.Chance(1, 8) {
 		line = Pick(r, []string{"POST /x HTTP/1.1", "PUT / HTTP/1.1", "post / http/1.1", "POST / HTTP", "POST / HTT", " POST / HTTP/1.1",
 			"POST / HTTP/1.1 GET / HTTP", "", "DELETE / HTTP/1.1", "POST  / HTTP/1.1"})
@@ -455,6 +546,11 @@ func c16Request(r *RNG, key string) []byte {
 	body := Pick(r, c16Bodies)
 	if r.Chance(1, 10) {
 		body = strings.Repeat(Pick(r, []string{"up+", "down+", "x"}), r.Range(1, 40)) + "up"
+	} else if r.Chance(1, 5) { // names and arguments made of characters that mean something to printf, JSON, HTTP, the action syntax
+		body = c16SpecialBody(r, false)
+	}
+	if bodyOf != nil {
+		body = bodyOf(r)
 	}
 	hdrs := []string{}
 	if r.Chance(4, 5) {
@@ -481,6 +577,9 @@ func c16Request(r *RNG, key string) []byte {
 			v = "+" + v
 		case 5:
 			v = Pick(r, []string{"1048576", "1048577", "99999999999999999999", "9223372036854775808"})
+			if r.Bool() {
+				v = c16Num(r)
+			}
 		case 6:
 			v = Pick(r, []string{"", "abc", "0x10", "1_0", "1 1", "1.0", "-", "+"})
 		case 7:
@@ -691,6 +790,23 @@ func c16Big(r *RNG, key string) []byte {
 func c16Gen(r *RNG) c16Case {
 	key := Pick(r, c16Keys)
 	cs := c16Case{Kind: "http", Key: lat([]byte(key)), State: lat([]byte(Pick(r, c16States))), Ready: true}
+	switch r.Intn(8) {
+	case 0, 1: // the state is whatever the getHandler says: any bytes
+		cs.State = lat([]byte("{\"query\":\"" + c16Text(r, r.Range(0, 4), false) + "\",\"matches\":[{\"index\":0,\"text\":\"" + c16Text(r, r.Range(0, 6), false) + "\"}]}"))
+	case 2:
+		cs.State = lat([]byte(c16Text(r, r.Range(1, 8), false)))
+	case 3, 4, 5: // the real status dump over a list
+		cs.Dump, cs.State = true, ""
+		items, sel := c16Items(r, false)
+		for _, it := range items {
+			cs.Items = append(cs.Items, lat([]byte(it)))
+		}
+		cs.Sel = sel
+		cs.Cy = r.Range(-1, len(items)+1)
+		if r.Chance(1, 2) {
+			cs.Query = lat([]byte(c16Text(r, r.Range(1, 3), false)))
+		}
+	}
 	var s []byte
 	switch k := r.Intn(100); {
 	case k < 3:
@@ -709,6 +825,14 @@ func c16Gen(r *RNG) c16Case {
 			s[i] = Pick(r, []byte{'\r', '\n', 'G', 'E', 'T', ' ', '/', 'P', 'O', 'S', 'H', ':', '1', 0, 0xff, 'a'})
 		}
 	default:
+		if cs.Dump && r.Chance(1, 2) { // a GET that gets through to the dump
+			s = []byte("GET /?" + c16Query(r) + " HTTP/1.1\r\nHost: localhost\r\n")
+			if key != "" {
+				s = append(s, []byte("X-API-Key: "+key+"\r\n")...)
+			}
+			s = append(s, '\r', '\n')
+			break
+		}
 		s = c16Request(r, key)
 		if r.Chance(1, 3) {
 			s = c16Mutate(r, s)
@@ -727,7 +851,9 @@ func runC16(c *Ctx) {
 	c.Rep.Rule = "connections = generated GET/POST requests (header case and order, duplicates, key prefix/suffix/space variants, Content-Length 0/-1/+n/too big/" +
 		"non-numeric, missing blank line, body before headers, trailing data), a third mutated bytewise (delete/insert/replace/early close/duplicate), random noise, " +
 		"streams beyond the 4 KiB buffer and the 64 KiB token limit; each written whole, in pieces, at line ends, between CR and LF, or byte by byte, then closed; " +
-		"plus --listen addresses with and without FZF_API_KEY. non-trivial = actions delivered, GET answered or 401; distinct by JSON of the case"
+		"GET parameters at the boundaries of the integer types; states, bodies and list lines made of printf / JSON / HTTP / action syntax; three in eight with the real " +
+		"Terminal.dumpStatus over a generated list, selection and query as the getHandler; real fzf --listen processes (kind live) given such a list and sent 5..10 such " +
+		"requests each over TCP; plus --listen addresses with and without FZF_API_KEY. non-trivial = actions delivered, GET answered or 401; distinct by JSON of the case"
 	if c.Replay != "" {
 		var cs c16Case
 		b, err := os.ReadFile(c.Replay)
@@ -766,9 +892,14 @@ func runC16(c *Ctx) {
 		{Kind: "http", Key: "k", State: "{}", Ready: false, Chunks: []string{"POST / HTTP/1.1\r\nX-API-Key: k\r\n", "Content-Length: 7\r\n\r\ndown+up"}},
 	}
 	n := c.N(4000, 120000)
-	parallel(c, n+len(slow), func(i int, r *RNG) {
+	nlive := c.N(48, 1500) // real fzf processes behind real sockets, 5..10 requests each
+	parallel(c, n+len(slow)+nlive, func(i int, r *RNG) {
 		if i < len(slow) {
 			c16Check(c, slow[i])
+			return
+		}
+		if i < len(slow)+nlive {
+			c16Check(c, c16GenLive(r))
 			return
 		}
 		c16Check(c, c16Gen(r))
